@@ -181,29 +181,26 @@ def cmdGetRange (c : Ctx) (db : Db) (k : Bytes) (start stop : Int) : R :=
 /-- allocation sizes the harness must never provoke in-process -/
 def hugeAlloc : Int := 536870912   -- 512 MiB, Redis' own string limit
 
+def errOffset : Value := .error (sb "ERR offset is out of range")
+def errTooBig : Value := .error (sb "ERR string exceeds maximum allowed size (512MB)")
+
+/-- SETRANGE: the offset checks come before the key is looked at -/
 def cmdSetRange (c : Ctx) (db : Db) (k : Bytes) (off : Int) (v : Bytes) : R :=
-  let crash? : Option String :=
-    if off < 0 then some "setRange: slice bounds out of range (negative offset)"
-    else if off + v.length > hugeAlloc then some "setRange: allocation of offset bytes (no 512MB limit)"
-    else none
+  if off < 0 then R.ok db errOffset
+  else if off > hugeAlloc || off + v.length > hugeAlloc then R.ok db errTooBig
+  else
   match db.live c.now k with
   | some ent =>
     match ent.val with
     | .str b =>
-      match crash? with
-      | some site => R.crashed db site
-      | none =>
-        let padded := if b.length < off.toNat then b ++ List.replicate (off.toNat - b.length) 0 else b
-        let res := padded.take off.toNat ++ v ++ padded.drop (off.toNat + v.length)
-        R.ok (db.put k (.str res) ent.exp) (vInt res.length)
+      let padded := if b.length < off.toNat then b ++ List.replicate (off.toNat - b.length) 0 else b
+      let res := padded.take off.toNat ++ v ++ padded.drop (off.toNat + v.length)
+      R.ok (db.put k (.str res) ent.exp) (vInt res.length)
     | _ => R.ok db wrongType
   | none =>
-    match crash? with
-    | some site => R.crashed db site
-    | none =>
-      if v.isEmpty && !c.q.setrangeEmptyCreates then R.ok db (.int 0) else
-      let res := List.replicate off.toNat 0 ++ v
-      R.ok (db.put k (.str res) none) (vInt res.length)
+    if v.isEmpty && !c.q.setrangeEmptyCreates then R.ok db (.int 0) else
+    let res := List.replicate off.toNat 0 ++ v
+    R.ok (db.put k (.str res) none) (vInt res.length)
 
 /-- the Go overflow test of `addInt`: `(newVal > value) != (delta > 0)` on wrapped int64 -/
 def goAddOverflow (value delta : Int) : Bool :=
@@ -351,8 +348,6 @@ where
     | .error _ => R.ok db wrongType
     | .ok none => R.ok db (if multi && n == 0 then .array [] else .nil)
     | .ok (some (e, l)) =>
-      -- `make([][]byte, 0, count)` happens once the list is known to exist
-      if n > 134217728 then R.crashed db "lpop/rpop: make([][]byte, 0, count)" else
       let taken := if left then l.take n else (l.reverse.take n)
       let rest := if left then l.drop n else (l.reverse.drop n).reverse
       let db' := if taken.isEmpty then db else upd c db k e (.list rest)
@@ -516,6 +511,9 @@ def cmdLMove (c : Ctx) (db : Db) (src dst : Bytes) (srcLeft dstLeft : Bool) : R 
           if srest.isEmpty && c.q.lmoveSelfSingleLoses then
             -- the key is removed when the pop empties it; the push goes to the detached object
             { db := (db.del src).setDirty, reply := .bulk x, pushed := [(dst, 1)] }
+          else if srest.isEmpty then
+            -- rotating a one-element list changes nothing
+            { db := db, reply := .bulk x, pushed := [(dst, 1)] }
           else
             let l' := if dstLeft then x :: srest else srest ++ [x]
             { db := upd c db src se (.list l'), reply := .bulk x, pushed := [(dst, 1)] }
